@@ -228,7 +228,13 @@ fn interpret_typename(
         first_char == Some('s') ||
         first_char == Some('i')
     {
-        if let Ok(size) = usize::from_str_radix(&typename[1..], 10)
+        // Widths beyond the supported range are not integer types,
+        // just like widths that don't fit the machine word
+        let maybe_size = usize::from_str_radix(&typename[1..], 10)
+            .ok()
+            .filter(|size| (*size as u64) <= util::BIGINT_MAX_BITS);
+
+        if let Some(size) = maybe_size
         {
             match first_char
             {
